@@ -576,7 +576,45 @@ func TestRealStartHistories(t *testing.T) {
 					break
 				}
 			}
+			// after the start: whatever way a name is asked for - by name, or through the bulk API, repeatedly - what
+			// comes back is the instance the registry published for it
+			published := map[any]string{}
+			for _, e := range in.Tracer.Events {
+				if e.Op == "create-exit" && !e.Err && e.Result != nil {
+					published[e.Result.Raw] = e.Name
+				}
+			}
+			for round := 0; round < 2; round++ {
+				var all []any
+				var aerr error
+				if p := kit.Protect(func() { all, aerr = in.Out.App.GetComponents() }); p != nil || aerr != nil {
+					break // a lazy component that cannot be created: the bulk call reports it (not this check's subject)
+				}
+				for _, e := range in.Tracer.Events {
+					if e.Op == "create-exit" && !e.Err && e.Result != nil {
+						published[e.Result.Raw] = e.Name
+					}
+				}
+				for _, c := range all {
+					if _, ok := published[c]; !ok {
+						t.Fatalf("C04: GetComponents (call %d after the start) returned %T %p, which the registry never published for any name (published: %d instances)\n%s", round+1, c, c, len(published), desc)
+					}
+				}
+				labels = append(labels, "bulk-lookup-after-start")
+			}
 		}
-		kit.Rec.Case(desc, nt, labels...)
+		kit.Rec.Case(desc, nt, dedupS(labels)...)
 	})
+}
+
+func dedupS(xs []string) []string {
+	m := map[string]bool{}
+	var out []string
+	for _, x := range xs {
+		if !m[x] {
+			m[x] = true
+			out = append(out, x)
+		}
+	}
+	return out
 }
